@@ -364,6 +364,71 @@ class EnumEncode(Contract):
         return res
 
 
+
+ETYPE = f"{IE}._enum_type.EnumType"
+
+
+class EnumTypeNew(Contract):
+    name = f"{ETYPE}.__new__"
+    prop = ("C15",)
+    top_level = True
+    cases = ("plain", "alias-in-the-middle", "alias-at-the-end", "no-member")
+    DECLS = {"plain": [("a", "A"), ("b", "B"), ("c", "C")], "alias-in-the-middle": [("a", "A"), ("a_bis", "A"), ("b", "B"), ("c", "C")],
+             "alias-at-the-end": [("a", "A"), ("b", "B"), ("b_bis", "B")], "no-member": []}
+    descr = ("the tables the metaclass attaches to an enumeration agree with its members: one index per (canonical) member, names[i] "
+             "and enums[i] are the name and the member whose index is i - also when the declaration has aliases (which are names of "
+             "members, not members); the standard library's class creation enters as an assumed contract (members in declaration "
+             "order, aliases only in __members__, len / iteration over canonical members, index = rank, as Enum.__init__ sets it)")
+
+    def setup(self, I, ctx, case):
+        from pyvc.values import EnumMember
+        from pyvc.interp import hkey
+        base = I.resolve_qualified(ENUM)
+        meta = I.resolve_qualified(ETYPE)
+        cls = ClassVal("H", None, [base], {})
+        members, by_value, allnames = {}, {}, DictVal()
+        for nm, val in self.DECLS[case]:
+            if val not in by_value:
+                m = EnumMember(cls, nm, val, index=len(members))
+                members[nm] = m
+                by_value[val] = m
+            allnames.items[hkey(nm)] = by_value[val]
+            allnames.keyvals[hkey(nm)] = nm
+        cls.enum_members = members if members else None
+        cls.ns["__members__"] = allnames
+        cls.ns["_member_names_"] = ListVal(list(members))
+        ctx.ghost["class_being_created"] = cls
+        ctx.assumed_ext.add("enum.EnumMeta.__new__ (standard library): creates the class with its canonical members in declaration order (index = rank, "
+                            "set by Enum.__init__), aliases listed only in __members__; len() and iteration range over canonical members")
+        # the standard library's metaclass creates the class: assumed
+        ext = [c for c in meta.mro() if getattr(c, "external", None) and "EnumMeta" in str(c.external)]
+        for c in ext:
+            c.ns["__new__"] = Builtin("enum.EnumMeta.__new__", lambda ctx2, mcls, *a, **k: ctx2.ghost["class_being_created"])
+        return {"metacls": meta, "name": "H", "bases": TupleVal([base]), "classdict": DictVal(), "__cls": cls, "__members": members, "__case": case}
+
+    def post(self, I, ctx, a, out, old):
+        cls, members = a["__cls"], list(a["__members"].values())
+        if out[0] != "return" or out[1] is not cls:
+            return [("returns-the-class-created", False)]
+        if a["__case"] == "no-member":
+            return [("a-class-without-members-gets-no-table", "indices" not in cls.ns and "names" not in cls.ns)]
+        idx, names, enums = cls.ns.get("indices"), cls.ns.get("names"), cls.ns.get("enums")
+        ok = all(isinstance(x, nparr.NArr) for x in (idx, names, enums))
+        if not ok:
+            return [("three-tables-are-attached", False)]
+        n = len(members)
+        res = [("one-entry-per-member", z3.And(B._z(idx.n) == n, B._z(names.n) == n, B._z(enums.n) == n)),
+               ("index-table-has-the-index-dtype", idx.dtype == "uint8")]
+        for i, m in enumerate(members):
+            res.append((f"entry-{i}-is-member-{m.name}-under-its-name-and-index",
+                        z3.And(B.zint(idx.elem(i)) == m.index, z3.BoolVal(names.elem(i) == m.name), z3.BoolVal(enums.elem(i) is m)) if m.index == i else False))
+        return res
+
+
+EnumTypeNew.probes = lambda self, case: [{"callee": self.name, "script": NATIVE, "mode": "declarations"}]
+EnumTypeNew.judge_native = lambda self, I, case, call, nat: _decl_judge(nat)
+
+
 class EnumArrayDecode(Contract):
     name = f"{EARR}.decode"
     prop = ("C15",)
@@ -412,7 +477,7 @@ class EnumArrayDecodeToStr(EnumArrayDecode):
 
 EnumArrayDecode.cases = (None,)
 
-CONTRACTS = [StrToIndex(), IntToIndex(), EnumToIndex(), EncodeArrayLike(), EncodeArray(), EnumEncode(), EnumArrayDecode(), EnumArrayDecodeToStr()]
+CONTRACTS = [EnumTypeNew(), StrToIndex(), IntToIndex(), EnumToIndex(), EncodeArrayLike(), EncodeArray(), EnumEncode(), EnumArrayDecode(), EnumArrayDecodeToStr()]
 
 
 def _decl_judge(nat):
